@@ -53,6 +53,8 @@ class ScopedRemover <
 	>
 {
 private:
+	EVENTPP_VERIF_FRIEND
+
 	struct Item
 	{
 		typename DispatcherType::Event event;
@@ -195,6 +197,8 @@ class ScopedRemover <
 	>
 {
 private:
+	EVENTPP_VERIF_FRIEND
+
 	struct Item
 	{
 		typename CallbackListType::Handle handle;
